@@ -35,7 +35,8 @@ def run(facts, res):
     if ma is None:
         res.floor("M1", "merge_arrays", 0, 1)
     else:
-        members = [ma] + facts.closures_of(ma.path)
+        from ..common import members_of as _mo
+        members = _mo(facts, ma)
         adds = 0
         for b in members:
             du = du_of(b)
@@ -107,7 +108,7 @@ def run(facts, res):
                     a_ok, b_ok, c_ok, elem_ok), ma.loc(ma.blocks[sb].term.line))
         # empty-destination shortcut copies every element of the source
         sc = False
-        for b in [ma] + facts.closures_of(ma.path):
+        for b in _mo(facts, ma):
             for bi, t in b.calls():
                 if t.callee is not None and t.callee.name == "push" and len(t.args) > 1 and contains_call(du_of(b).operand_term(t.args[1], 8), "clone"):
                     sc = True
@@ -183,7 +184,8 @@ def run(facts, res):
     res.floor("M4", "reconstruction map insert in read", n4, 1)
     uf = facts.body("utils::unflatten")
     if uf is not None:
-        members = [uf] + facts.closures_of(uf.path)
+        from ..common import members_of as _mo4
+        members = _mo4(facts, uf)
         lookups = {}
         for b in members:
             du = du_of(b)
